@@ -10,7 +10,8 @@ from vlib.runner import Result, SubCheck, Violation
 
 PROPERTY = "C12"
 LEVEL = "exploration"
-RULE = ("clusters: n_clusters 2..4, KMeans and MiniBatchKMeans, deterministic learning policies incl. linear, "
+RULE = ("Sub-check tree_failed_call: a TreeBandit partial_fit that scikit-learn rejects for a later arm (a context value beyond single precision) after an earlier arm was updated; afterwards the bandit must behave like one that absorbed the usable rows or like one that never saw the call (either reading is accepted, a mixture is not). "
+        "clusters: n_clusters 2..4, KMeans and MiniBatchKMeans, deterministic learning policies incl. linear, "
         "histories of fit / partial_fit (full refit) / add_arm / remove_arm; oracle: the query's cell is the set of "
         "stored rows i with kmeans.labels_[i] == kmeans.predict(q) on the fitted object mab._imp.kmeans, and the "
         "expectations must equal a fresh bandit (same learning policy, current arms) fit on those rows in stored "
@@ -377,9 +378,84 @@ def evaluate_tree(plan, ctx):
     return Result(nt, ev)
 
 
+# ---- TreeBandit after a training call that scikit-learn rejected part-way --------------------------------------------
+# A partial_fit whose rows for a later arm cannot be used (a finite context value beyond the range of the trees' single
+# precision) raises after earlier arms were updated.  No property says whether those arms keep what they absorbed; both
+# readings are accepted.  What C12 does say is that afterwards every arm's expectation is the statistic over the rewards
+# in the query's leaf of *that arm's tree*: the bandit must go on exactly like one that absorbed the usable rows of the
+# failed call, or exactly like one that never saw the call - not like a mixture (rewards filed under the leaves of a tree
+# that was replaced since).
+
+@st.composite
+def failed_call_plan_st(draw, tier):
+    kind, arms = draw(gen.arms_st(("int", "str"), 2, 3))
+    d = draw(st.integers(1, 3))
+    lp = draw(st.sampled_from([["EpsilonGreedy", {"epsilon": 0}], ["UCB1", {"alpha": 1}], ["UCB1", {"alpha": 0.5}]]))
+    cfg = {"arms": arms, "lp": lp, "np": ["TreeBandit", {}], "seed": draw(st.integers(0, 2 ** 16)), "n_jobs": 1,
+           "backend": None, "arm_kind": kind}
+    early, late = arms[0], arms[-1]
+
+    def rows(arm, lo, hi):
+        n = draw(st.integers(lo, hi))
+        return [arm] * n, draw(st.lists(st.integers(-5, 9), min_size=n, max_size=n)), draw(gen.contexts_st(n, d, "int"))
+
+    def join(*parts):
+        return [sum([list(p_[i]) for p_ in parts], []) for i in range(3)]
+
+    first = join(rows(late, 2, 5), rows(early, 0, 3) if draw(st.integers(0, 2)) == 0 else ([], [], []))
+    usable = rows(early, 2, 6)
+    poison_row = draw(gen.contexts_st(1, d, "int"))[0]
+    poison_row[draw(st.integers(0, d - 1))] = draw(st.sampled_from([1e39, -1e39, 1e300]))
+    failing = join(usable, ([late], [draw(st.integers(-5, 9))], [poison_row]))
+    clean = join(rows(early, 2, 6), rows(late, 0, 2))
+    queries = draw(gen.contexts_st(draw(st.integers(2, 5)), d, "int")) + [list(r) for r in usable[2][:2]]
+    return {"config": cfg, "first": first, "failing": failing, "usable": join(usable), "clean": clean, "queries": queries}
+
+
+def failed_call_strategy(tier, ctx):
+    return failed_call_plan_st(tier)
+
+
+def evaluate_failed_call(plan, ctx):
+    cfg = plan["config"]
+
+    def run(calls):
+        m = ops.build(cfg)
+        outs = []
+        for name, (dec, rew, cx) in calls:
+            outs.append(ops.apply_op(m, [name, dec, rew, cx]))
+        return m, outs
+
+    a, outs = run([("fit", plan["first"]), ("partial_fit", plan["failing"]), ("partial_fit", plan["clean"])])
+    if ops.is_exc(outs[0]) or ops.is_exc(outs[2]):
+        raise Violation("unexpected_exception", "fit / clean partial_fit raised %s / %s" % (ops.short(outs[0]), ops.short(outs[2])))
+    if not ops.is_exc(outs[1]):
+        return Result(False, ["poisoned_call_accepted"], skipped=True)
+    absorbed, o1 = run([("fit", plan["first"]), ("partial_fit", plan["usable"]), ("partial_fit", plan["clean"])])
+    atomic, o2 = run([("fit", plan["first"]), ("partial_fit", plan["clean"])])
+    if any(ops.is_exc(o) for o in o1 + o2):
+        raise Violation("unexpected_exception", "reference histories raised")
+    got = [ops.apply_op(a, ["predict_expectations", [q]]) for q in plan["queries"]]
+    w1 = [ops.apply_op(absorbed, ["predict_expectations", [q]]) for q in plan["queries"]]
+    w2 = [ops.apply_op(atomic, ["predict_expectations", [q]]) for q in plan["queries"]]
+    ev = ["lp=" + cfg["lp"][0], "failed_call:" + outs[1][1]]
+    if ops.same(got, w1):
+        ev.append("usable_rows_absorbed")
+    elif ops.same(got, w2):
+        ev.append("failed_call_left_nothing")
+    else:
+        raise Violation("leaf_statistic_after_failed_call",
+                        "after a partial_fit that raised %s the expectations %s are neither those of a bandit that absorbed "
+                        "the usable rows of that call (%s) nor those of one that never saw it (%s)"
+                        % (outs[1][1], ops.short(got, 300), ops.short(w1, 300), ops.short(w2, 300)))
+    early = cfg["arms"][0]
+    return Result(early not in plan["first"][0], ev)
+
+
 SUBCHECKS = [
     SubCheck("clusters", clusters_strategy, evaluate_clusters, quick=6000, thorough=60000),
     SubCheck("tree", tree_strategy, evaluate_tree, quick=4000, thorough=40000),
+    SubCheck("tree_failed_call", failed_call_strategy, evaluate_failed_call, quick=800, thorough=8000),
 ]
 KNOWN = {}
 
